@@ -13,8 +13,11 @@ import (
 	"github.com/pkg/errors"
 )
 
+// NOTE map keys are sorted; the same object is encoded to the same bytes.
+var sonicconfiged = sonic.Config{SortMapKeys: true}.Froze()
+
 func marshalJSON(v interface{}) ([]byte, error) {
-	b, err := sonic.Marshal(v)
+	b, err := sonicconfiged.Marshal(v)
 
 	return b, errors.WithStack(err)
 }
